@@ -31,7 +31,12 @@ def sliding_windows(
     n_cols = kernel_output_size
 
     result = np.empty((n_rows, n_cols), dtype=kernel_output_dtype)
-    if sample.shape[0] < width:
+    whole_window = sample.shape[0] == width
+    if whole_window:
+        for j in range(width):
+            if sample[j] != j:
+                whole_window = False
+    if not whole_window:
         for i in range(n_rows):
             result[i] = kernel(sequence[i * stride : i * stride + width][sample])
             # result[i] = np.asarray(
